@@ -71,14 +71,17 @@ if os.path.abspath(src) != os.path.abspath(out_dir):
     shutil.copy(demo, os.path.join(out_dir, 'demo_test.go'))
     if os.path.exists(os.path.join(src, 'notes.md')):
         shutil.copy(os.path.join(src, 'notes.md'), os.path.join(out_dir, 'notes.md'))
-elif os.path.exists(os.path.join(out_dir, 'meta.json')):
-    # re-evaluation of a stored seed: keep its descriptive fields
+if os.path.exists(os.path.join(out_dir, 'meta.json')):
+    # re-evaluation of a stored seed: keep its descriptive fields and the checks
+    # recorded earlier as catching it (this run may have asked for fewer)
     old = json.load(open(os.path.join(out_dir, 'meta.json')))
-    for k in ('needs_to_manifest', 'history', 'what_was_run', 'breaks_property', 'demo_package_dir'):
+    for k in ('needs_to_manifest', 'history', 'what_was_run', 'breaks_property', 'round'):
         if k in old:
             meta[k] = old[k]
-    if 'demo_package_dir' in old and demo_dir == '.':
-        pass
+    for p in old.get('caught_by', []):
+        if p not in meta['checks_run'] and p not in meta['caught_by']:
+            meta['caught_by'].append(p)
+            meta['checks_run'][p] = old.get('checks_run', {}).get(p, {'exit': 1, 'violations': 1, 'wall_s': 0, 'first_lines': ['(from an earlier evaluation)']})
 meta['demo_package_dir'] = demo_dir
 json.dump(meta, open(os.path.join(out_dir, 'meta.json'), 'w'), indent=1)
 ok = meta['builds'] and meta['suite_passes_with_change'] and meta['demo_fails_with_change'] and meta['demo_passes_without_change']
